@@ -96,11 +96,20 @@ def mapAtoms (ts : List (Tok (List Char))) : Option (List (Tok Nat)) :=
     | .lp => some .lp
     | .rp => some .rp
 
+/-- the model of the whole of `ast.Parse` on a token skeleton, instantiated with everything
+    /verif/extract regenerates (parser numbers, listener shape, typing / evaluation shape);
+    `none` = a regenerated shape the model has no interpretation for -/
+def modelQuery (ts : List (Tok Nat)) : Option (Res Nat) :=
+  queryT Generated.boolTransform Generated.boolListener Generated.boolExprParser isBoolSym ts
+
 partial def step (line : String) : String :=
   match splitSp line with
   | ["k", n, sk] =>
     match toksOfString sk with
-    | some ts => showRes n.toNat! (query Generated.boolListener Generated.boolExprParser isBoolSym ts)
+    | some ts =>
+      match modelQuery ts with
+      | some res => showRes n.toNat! res
+      | none => "no-model"
     | none => "bad-case"
   | ["x", spelled, vecs] => step ("r - " ++ spelled ++ " " ++ vecs)
   | ["r", _base, spelled, vecs] =>
@@ -113,7 +122,10 @@ partial def step (line : String) : String :=
       | some ts =>
         match mapAtoms ts with
         | none => "parse-error"
-        | some ts' => showRows vs (query Generated.boolListener Generated.boolExprParser isBoolSym ts')
+        | some ts' =>
+          match modelQuery ts' with
+          | some res => showRows vs res
+          | none => "no-model"
     | none => "bad-case"
   | _ => "bad-case"
 
